@@ -18,6 +18,7 @@ fn is_xml_char(c: u32) -> bool {
 //@ desc: every Unicode scalar accepted by the identifier grammar's character classes (alpha_or_underscore / alphanum_or_underscore, including the `ch as u8` truncation) is an XML Char and is none of < > & " ' or XML white space, so a class token can neither end the attribute value nor split into two tokens; all scalars, no bound
 //@ encodes: util::parser::alpha_or_underscore, util::parser::alphanum_or_underscore, util::parser::underscore
 #[kani::proof]
+#[kani::stub(std::io::_print, crate::kstub::noop_print)]
 fn o2_3_ident_chars_attr_safe() {
     let c: char = kani::any();
     let first = parser::alpha_or_underscore(c);
